@@ -26,8 +26,8 @@ use crate::gen::raw::{RawGen, NAME_WORDS};
 use crate::lang::{Expr, Lit, NameUse, NumLit, Stmt};
 use crate::obs::{CallObs, Slot, Val};
 use crate::prng::Rng;
-use crate::trace::{AdminOp, Event, Line, Op, ResultSpec, RuleSpec, TextSpec, Trace, TypeItemSpec, ADMIN};
-use crate::world::{AdminObs, World};
+use crate::trace::{AdminOp, Event, InnerStep, Line, Op, ResultSpec, RuleSpec, TextSpec, Trace, TypeItemSpec, ADMIN};
+use crate::world::{AdminObs, InnerCall, World};
 
 pub struct C04;
 
@@ -166,6 +166,9 @@ impl Check for C04 {
         let mut dec = ",".to_string();
         // swarm: a third of the runs are rule-heavy (rules registered up front, many matching lines)
         let rule_heavy = r.chance(1, 3);
+        // scheduling inside evaluations: how many of ten client steps get other clients' steps
+        // scheduled into their callback invocations
+        let nest_rate = if rule_heavy { *r.pick(&[0u64, 3, 6]) } else { *r.pick(&[0u64, 0, 0, 2]) };
         if rule_heavy {
             for _ in 0..(2 + r.below(3)) {
                 let op = loop { let op = gen_admin(&mut r, &g, &mut rule_counter, faults); if matches!(op, AdminOp::AddRule { .. }) { break op; } };
@@ -186,20 +189,26 @@ impl Check for C04 {
                 events.push(Event { actor: ADMIN, op: Op::Admin(op), clock: ClockScript::Frozen { t } });
                 continue;
             }
-            let c = &mut cls[who];
-            c.steps -= 1;
-            if c.session {
+            cls[who].steps -= 1;
+            let nest_here = nest_rate > 0 && r.below(10) < nest_rate;
+            let (mut op, mut clock) = if cls[who].session {
+                let c = &mut cls[who];
                 if !c.live || r.chance(1, 10) {
                     c.live = true;
                     c.probes.clear();
                     if r.chance(1, 6) { c.lang = r.pick(LANGS).to_string(); }
                     events.push(Event { actor: who as u8, op: Op::SessionNew { lang: c.lang.clone() }, clock: ClockScript::Frozen { t } });
                 }
+                else if r.chance(1, 10) {
+                    // the live session switches language; its variables (probes) must survive
+                    c.lang = r.pick(LANGS).to_string();
+                    events.push(Event { actor: who as u8, op: Op::SessionLang { lang: c.lang.clone() }, clock: ClockScript::Frozen { t } });
+                }
                 let text = gen_text(&mut r, &g, &c.lang, &dec, max_lines, &mut c.probes, &mut probe_counter, true, rule_heavy);
-                events.push(Event { actor: who as u8, op: Op::SessionText { text }, clock: ClockScript::Frozen { t } });
+                (Op::SessionText { text }, ClockScript::Frozen { t })
             } else {
                 let mut none = vec![];
-                let mut text = gen_text(&mut r, &g, &c.lang, &dec, max_lines, &mut none, &mut probe_counter, false, rule_heavy);
+                let mut text = gen_text(&mut r, &g, &cls[who].lang, &dec, max_lines, &mut none, &mut probe_counter, false, rule_heavy);
                 // isolation probes: a one-shot text may try to read a probe bound in some session
                 if r.chance(1, 5) {
                     let all: Vec<(u32, f64)> = cls.iter().flat_map(|c| c.probes.iter().cloned()).collect();
@@ -209,12 +218,67 @@ impl Check for C04 {
                         text.crlf.push(false);
                     }
                 }
-                let clock = if faults && r.chance(1, 12) { ClockScript::Fail { t, at_read: r.below(4) as u32 } } else { ClockScript::Frozen { t } };
+                let clock = if faults && !nest_here && r.chance(1, 12) { ClockScript::Fail { t, at_read: r.below(4) as u32 } } else { ClockScript::Frozen { t } };
                 let lang = if r.chance(1, 30) { "xx".to_string() } else { cls[who].lang.clone() };
-                events.push(Event { actor: who as u8, op: Op::Execute { lang, text }, clock });
+                (Op::Execute { lang, text }, clock)
+            };
+            if nest_here {
+                // the outer text gets lines that reach a callback, with state- and clock-dependent lines around them
+                if let Op::Execute { text, .. } | Op::SessionText { text } = &mut op {
+                    for _ in 0..(1 + r.below(2)) {
+                        let at = r.usize(text.lines.len() + 1);
+                        text.lines.insert(at, Line::Raw(rule_line(&mut r, &g, &dec)));
+                        text.crlf.insert(at.min(text.crlf.len()), false);
+                    }
+                    if r.chance(1, 2) { text.lines.push(Line::Raw(r.pick(&["today", "tomorrow", "11:30", "today + 3 days", "12 january", "yesterday to today"]).to_string())); text.crlf.push(false); }
+                }
+                let mut inner = Vec::new();
+                let mut taken: Vec<usize> = vec![who];
+                for _ in 0..(1 + r.below(2)) {
+                    let others: Vec<usize> = (0..cls.len()).filter(|i| !taken.contains(i) && cls[*i].session && cls[*i].steps > 0).collect();
+                    let dt: i128 = match r.below(6) {
+                        0 | 1 => 0,
+                        2 => NS,
+                        3 => 3600 * NS,
+                        // just over the next midnight
+                        4 => (86400 * NS - t.rem_euclid(86400 * NS)) + NS,
+                        _ => 366 * 86400 * NS,
+                    };
+                    let at_call = 1 + r.below(3) as u32;
+                    if !others.is_empty() && r.chance(1, 2) {
+                        let o = *r.pick(&others);
+                        taken.push(o);
+                        let c2 = &mut cls[o];
+                        c2.steps -= 1;
+                        if !c2.live {
+                            c2.live = true;
+                            c2.probes.clear();
+                            events.push(Event { actor: o as u8, op: Op::SessionNew { lang: c2.lang.clone() }, clock: ClockScript::Frozen { t } });
+                        }
+                        let text = gen_text(&mut r, &g, &c2.lang, &dec, max_lines, &mut c2.probes, &mut probe_counter, true, rule_heavy);
+                        inner.push(InnerStep { at_call, actor: o as u8, session: true, lang: c2.lang.clone(), text, dt });
+                    } else {
+                        let mut none = vec![];
+                        let lang = r.pick(LANGS).to_string();
+                        let mut text = gen_text(&mut r, &g, &lang, &dec, max_lines, &mut none, &mut probe_counter, false, rule_heavy);
+                        if r.chance(1, 4) {
+                            let all: Vec<(u32, f64)> = cls.iter().flat_map(|c| c.probes.iter().cloned()).collect();
+                            if !all.is_empty() {
+                                let (id, _) = *r.pick(&all);
+                                text.lines.push(Line::Sem(Stmt::Eval(Expr::Var(NameUse { words: vec![probe_name(id)] }))));
+                                text.crlf.push(false);
+                            }
+                        }
+                        inner.push(InnerStep { at_call, actor: 100 + r.below(2) as u8, session: false, lang, text, dt });
+                    }
+                }
+                if r.chance(1, 2) { clock = ClockScript::Tick { start: t, step: *r.pick(&[1i128, NS, 86400 * NS]) }; }
+                op = Op::Nested { outer: Box::new(op), inner };
             }
+            events.push(Event { actor: who as u8, op, clock });
         }
-        Trace { check: "C04".into(), seed, host_tz: env.host_tz.clone(), salt: r.next(), mode: if faults { "faults".into() } else { "fault-free".into() }, events }
+        crate::gen::session_variants(&mut r, &mut events, 3, 8);
+        Trace { check: "C04".into(), seed, host_tz: env.host_tz.clone(), salt: r.next(), mode: format!("{}{}", if faults { "faults" } else { "fault-free" }, if nest_rate > 0 { "+nested" } else { "" }), events }
     }
 
     fn execute(&self, trace: &Trace, env: &Env) -> RunReport {
@@ -223,16 +287,17 @@ impl Check for C04 {
         let mut l = World::new(&env.data, trace.salt, t0);
         l.explain = env.explain;
         // replicas: one per client, plus a spare so that there are at least two
-        let mut ids: BTreeSet<u8> = trace.events.iter().filter(|e| e.actor != ADMIN).map(|e| e.actor).collect();
+        let mut ids: BTreeSet<u8> = BTreeSet::new();
+        for e in trace.events.iter() {
+            if e.actor != ADMIN { ids.insert(e.actor); }
+            if let Op::Nested { inner, .. } = &e.op { for i in inner { ids.insert(i.actor); } }
+        }
         let mut spare = 200u8;
         while ids.len() < 2 { ids.insert(spare); spare += 1; }
         let ids: Vec<u8> = ids.into_iter().collect();
-        let mut reps: BTreeMap<u8, World> = ids.iter().map(|id| (*id, World::new(&env.data, trace.salt, t0))).collect();
-        let mut oneshot_rr = 0usize;
-        // probes bound per live session (client -> id -> value), and all probe ids ever bound with owner
-        let mut bound: BTreeMap<u8, BTreeMap<String, f64>> = BTreeMap::new();
+        let reps: BTreeMap<u8, World> = ids.iter().map(|id| (*id, World::new(&env.data, trace.salt, t0))).collect();
+        let mut x = Exec { l, reps, ids, oneshot_rr: 0, bound: BTreeMap::new(), last_lines: BTreeMap::new() };
         let mut last_t = t0;
-        let mut last_lines: BTreeMap<u8, usize> = BTreeMap::new();
 
         for (ei, ev) in trace.events.iter().enumerate() {
             let t = ev.clock.base();
@@ -241,12 +306,12 @@ impl Check for C04 {
             last_t = t;
             match &ev.op {
                 Op::Admin(op) => {
-                    let o = l.admin(op, &ev.clock);
-                    let _ = l.cfg.apply(&env.data, op);
+                    let o = x.l.admin(op, &ev.clock);
+                    let _ = x.l.cfg.apply(&env.data, op);
                     rep.mix_obs(&format!("{:?}", o));
                     let accepted = matches!(o, AdminObs::Unit | AdminObs::Bool(true) | AdminObs::Res(Ok(())));
                     rep.count(if accepted { op.kind() } else { "admin.rejected" });
-                    for (id, w) in reps.iter_mut() {
+                    for (id, w) in x.reps.iter_mut() {
                         let o2 = w.admin(op, &ev.clock);
                         let _ = w.cfg.apply(&env.data, op);
                         if o2 != o {
@@ -255,101 +320,212 @@ impl Check for C04 {
                     }
                 }
                 Op::Checkpoint { .. } => {}
+                Op::SessionLang { lang } => {
+                    if x.l.sessions.contains_key(&ev.actor) {
+                        x.l.session_set_language(ev.actor, lang);
+                        x.reps.get_mut(&ev.actor).unwrap().session_set_language(ev.actor, lang);
+                        rep.count("session.language_switch");
+                    }
+                }
+                Op::SessionRerun => {
+                    // once more without a new text; defined for a one-line text (it is evaluated again)
+                    if x.last_lines.get(&ev.actor) != Some(&1) || !x.l.sessions.contains_key(&ev.actor) { continue; }
+                    let calls_before = x.l.log.borrow().len();
+                    let (o, clk) = x.l.session_rerun(ev.actor, &ev.clock);
+                    rep.evaluations += 1;
+                    rep.clock_reads += clk.values.len() as u64;
+                    rep.mix_obs(&o.short());
+                    count_rule_faults(&mut rep, &x.l, calls_before);
+                    rep.count("session.rerun_without_new_text");
+                    let w = x.reps.get_mut(&ev.actor).unwrap();
+                    let (o2, _) = w.session_rerun(ev.actor, &ClockScript::Frozen { t });
+                    rep.judged += 1;
+                    if o != o2 {
+                        rep.violate("O-projection", format!("session-rerun-differs:{}", diff_kind(&o, &o2)), ei, format!("evaluating the session again without a new text gave {} on the long-lived calculator/session but {} on the client's replica", o.short(), o2.short()));
+                    }
+                }
                 Op::SessionNew { lang } => {
-                    if l.sessions.contains_key(&ev.actor) { rep.count("session.drop_recreate"); }
-                    l.session_new(ev.actor, lang);
-                    reps.get_mut(&ev.actor).unwrap().session_new(ev.actor, lang);
-                    bound.insert(ev.actor, BTreeMap::new());
-                    last_lines.remove(&ev.actor);
+                    if x.l.sessions.contains_key(&ev.actor) { rep.count("session.drop_recreate"); }
+                    x.l.session_new(ev.actor, lang);
+                    x.reps.get_mut(&ev.actor).unwrap().session_new(ev.actor, lang);
+                    x.bound.insert(ev.actor, BTreeMap::new());
+                    x.last_lines.remove(&ev.actor);
                 }
                 Op::Execute { lang, text } => {
-                    let rendered = l.render(text);
+                    let rendered = x.l.render(text);
                     let full = text.assemble(&rendered);
-                    let calls_before = l.log.borrow().len();
-                    let (o, clk) = l.execute(lang, &full, &ev.clock);
+                    let calls_before = x.l.log.borrow().len();
+                    let (o, clk) = x.l.execute(lang, &full, &ev.clock);
                     rep.evaluations += 1;
                     rep.clock_reads += clk.values.len() as u64;
-                    rep.mix_obs(&o.short());
-                    count_rule_faults(&mut rep, &l, calls_before);
-                    if lang != "en" { rep.count(if lang == "tr" { "lang.other" } else { "lang.unknown" }); }
-                    let unwound_by_fault = match &o {
-                        CallObs::Unwound(p) => p.msg.contains("SIMRULE-UNWIND") || matches!(ev.clock, ClockScript::Fail { .. }),
-                        _ => false,
-                    };
-                    if unwound_by_fault {
-                        // the step unwound because of an injected fault: it is skipped on the
-                        // replica; everything afterwards must still agree
-                        rep.count(if matches!(ev.clock, ClockScript::Fail { .. }) { "clock.source_failure" } else { "rule.unwind" });
-                        rep.unjudged += 1;
-                        continue;
-                    }
-                    let rid = ids[oneshot_rr % ids.len()];
-                    oneshot_rr += 1;
-                    let w = reps.get_mut(&rid).unwrap();
-                    // the replica evaluates under a frozen clock at the same instant (a Fail script
-                    // that did not fire behaves as frozen)
-                    let (o2, _) = w.execute(lang, &full, &ClockScript::Frozen { t });
-                    rep.judged += 1;
-                    if o != o2 {
-                        rep.violate("O-projection", format!("oneshot-differs:{}", diff_kind(&o, &o2)), ei, format!("one-shot text {:?} (lang {}) gave {} on the long-lived calculator but {} on replica {} with a different evaluation history", full, lang, o.short(), o2.short(), rid));
-                    }
-                    if let Some(n) = o.lines().map(|x| x.len()) {
-                        let want = text.expected_slots(&rendered);
-                        if n != want { rep.violate("O-slots", "oneshot-slot-count".into(), ei, format!("text {:?} has {} lines but {} result slots", full, want, n)); }
-                    }
-                    // isolation: no probe bound in any session may be visible to a one-shot evaluation
-                    check_probes(&mut rep, ei, text, &o, &BTreeMap::new(), &bound, "one-shot");
+                    count_rule_faults(&mut rep, &x.l, calls_before);
+                    x.judge_oneshot(&mut rep, ei, lang, text, &rendered, &full, &o, t, matches!(ev.clock, ClockScript::Fail { .. }), "");
                 }
                 Op::SessionText { text } => {
-                    if !l.sessions.contains_key(&ev.actor) {
-                        // shrinking may have removed the SessionNew; treat as implicit
-                        l.session_new(ev.actor, "en");
-                        reps.get_mut(&ev.actor).unwrap().session_new(ev.actor, "en");
-                        bound.insert(ev.actor, BTreeMap::new());
-                    }
-                    let rendered = l.render(text);
+                    x.ensure_session(ev.actor);
+                    let rendered = x.l.render(text);
                     let full = text.assemble(&rendered);
-                    let want = text.expected_slots(&rendered);
-                    match last_lines.get(&ev.actor) {
-                        Some(p) if *p > want => rep.count("session.swap_shrink"),
-                        Some(p) if *p < want => rep.count("session.swap_grow"),
-                        Some(_) => rep.count("session.swap_same"),
-                        None => {}
-                    }
-                    last_lines.insert(ev.actor, want);
-                    let calls_before = l.log.borrow().len();
-                    let (o, clk) = l.session_text(ev.actor, &full, &ev.clock);
+                    x.count_swap(&mut rep, ev.actor, text.expected_slots(&rendered));
+                    let calls_before = x.l.log.borrow().len();
+                    let (o, clk) = x.l.session_text(ev.actor, &full, &ev.clock);
                     rep.evaluations += 1;
                     rep.clock_reads += clk.values.len() as u64;
-                    rep.mix_obs(&o.short());
-                    count_rule_faults(&mut rep, &l, calls_before);
-                    let w = reps.get_mut(&ev.actor).unwrap();
-                    w.allow_unwind = true;
-                    let o2 = w.session_text_linewise(ev.actor, &full, &ev.clock);
-                    rep.judged += 1;
-                    if o != o2 {
-                        rep.violate("O-projection", format!("session-differs:{}", diff_kind(&o, &o2)), ei, format!("session text {:?} gave {} on the long-lived calculator/session but {} on the client's replica fed line by line", full, o.short(), o2.short()));
+                    count_rule_faults(&mut rep, &x.l, calls_before);
+                    x.judge_session(&mut rep, ei, ev.actor, text, &rendered, &full, &o, t, "");
+                }
+                Op::Nested { outer, inner } => {
+                    // the outer call, with other clients' steps scheduled inside its callback invocations
+                    let (outer_session, lang, text): (Option<u8>, String, &TextSpec) = match &**outer {
+                        Op::Execute { lang, text } => (None, lang.clone(), text),
+                        Op::SessionText { text } => { x.ensure_session(ev.actor); (Some(ev.actor), String::new(), text) }
+                        _ => continue,
+                    };
+                    let rendered = x.l.render(text);
+                    let full = text.assemble(&rendered);
+                    if outer_session.is_some() { x.count_swap(&mut rep, ev.actor, text.expected_slots(&rendered)); }
+                    // inner steps: a session may take part once, and never the session that is being evaluated
+                    let mut used: BTreeSet<u8> = BTreeSet::new();
+                    if outer_session.is_some() { used.insert(ev.actor); }
+                    let mut calls: Vec<InnerCall> = Vec::new();
+                    let mut specs: BTreeMap<usize, (Vec<String>, String)> = BTreeMap::new();
+                    for (idx, st) in inner.iter().enumerate() {
+                        if st.session { if !used.insert(st.actor) { continue; } x.ensure_session(st.actor); }
+                        let r2 = x.l.render(&st.text);
+                        let f2 = st.text.assemble(&r2);
+                        if st.session { x.count_swap(&mut rep, st.actor, st.text.expected_slots(&r2)); }
+                        calls.push(InnerCall { idx, at_call: st.at_call, actor: st.actor, session: st.session, lang: st.lang.clone(), text: f2.clone(), t: t + st.dt });
+                        specs.insert(idx, (r2, f2));
                     }
-                    match &o {
-                        CallObs::Returned { status, lines } => {
-                            if !*status || lines.len() != want {
-                                rep.violate("O-slots", "session-slot-count".into(), ei, format!("new text {:?} has {} lines but status={} with {} result slots", full, want, status, lines.len()));
-                            }
+                    let calls_before = x.l.log.borrow().len();
+                    let (o, clk, results) = x.l.run_nested(outer_session, &lang, &full, &ev.clock, calls);
+                    rep.evaluations += 1 + results.len() as u64;
+                    rep.clock_reads += clk.values.len() as u64 + results.iter().map(|r| r.reads as u64).sum::<u64>();
+                    count_rule_faults(&mut rep, &x.l, calls_before);
+                    if !ev.clock.is_frozen() && clk.distinct_values().len() > 1 { rep.count("clock.tick_in_op"); }
+                    let fired = results.iter().filter(|r| r.fired_in_call.is_some()).count();
+                    let tag = if fired > 0 { "nested-" } else { "" };
+                    match outer_session {
+                        None => x.judge_oneshot(&mut rep, ei, &lang, text, &rendered, &full, &o, t, false, tag),
+                        Some(a) => x.judge_session(&mut rep, ei, a, text, &rendered, &full, &o, t, tag),
+                    }
+                    for r in results.iter() {
+                        let st = &inner[r.idx];
+                        let (r2, f2) = &specs[&r.idx];
+                        match r.fired_in_call {
+                            Some(c) => { rep.count("sched.step_inside_callback"); rep.count(&format!("probe.nested_at_call_{}", c.min(4))); if st.dt != 0 { rep.count("sched.inner_sees_other_instant"); } }
+                            None => rep.count("probe.nested_not_reached"),
                         }
-                        CallObs::Unwound(_) => {}
+                        let tag = if r.fired_in_call.is_some() { "inner-" } else { "" };
+                        if st.session { x.judge_session(&mut rep, ei, st.actor, &st.text, r2, f2, &r.obs, t + st.dt, tag); }
+                        else { x.judge_oneshot(&mut rep, ei, &st.lang, &st.text, r2, f2, &r.obs, t + st.dt, false, tag); }
                     }
-                    // persistence and isolation of probes
-                    let mine = bound.get(&ev.actor).cloned().unwrap_or_default();
-                    let newly = check_probes(&mut rep, ei, text, &o, &mine, &bound, "session");
-                    if let Some(m) = bound.get_mut(&ev.actor) { m.extend(newly); }
                 }
             }
-            rep.states.insert(state_hash(&l, &bound));
+            rep.states.insert(state_hash(&x.l, &x.bound));
         }
         if let (Some(a), Some(b)) = (trace.events.first(), trace.events.last()) {
             rep.sim_span_s = (b.clock.base() - a.clock.base()) as f64 / 1e9;
         }
         rep
+    }
+}
+
+/// executor state: the long-lived calculator, the replicas and the probe bookkeeping
+struct Exec {
+    l: World,
+    reps: BTreeMap<u8, World>,
+    ids: Vec<u8>,
+    oneshot_rr: usize,
+    /// probes bound per live session (client -> name -> value)
+    bound: BTreeMap<u8, BTreeMap<String, f64>>,
+    last_lines: BTreeMap<u8, usize>,
+}
+
+impl Exec {
+    fn ensure_session(&mut self, actor: u8) {
+        if !self.l.sessions.contains_key(&actor) {
+            // shrinking may have removed the SessionNew; treat as implicit
+            self.l.session_new(actor, "en");
+            self.reps.get_mut(&actor).unwrap().session_new(actor, "en");
+            self.bound.insert(actor, BTreeMap::new());
+        }
+    }
+
+    fn count_swap(&mut self, rep: &mut RunReport, actor: u8, want: usize) {
+        match self.last_lines.get(&actor) {
+            Some(p) if *p > want => rep.count("session.swap_shrink"),
+            Some(p) if *p < want => rep.count("session.swap_grow"),
+            Some(_) => rep.count("session.swap_same"),
+            None => {}
+        }
+        self.last_lines.insert(actor, want);
+    }
+
+    /// `o`: what the one-shot evaluation of `full` gave on the long-lived calculator at instant `t`
+    #[allow(clippy::too_many_arguments)]
+    fn judge_oneshot(&mut self, rep: &mut RunReport, ei: usize, lang: &str, text: &TextSpec, rendered: &[String], full: &str, o: &CallObs, t: i128, clock_fails: bool, tag: &str) {
+        rep.mix_obs(&o.short());
+        if lang != "en" { rep.count(if lang == "tr" { "lang.other" } else { "lang.unknown" }); }
+        let unwound_by_fault = match o {
+            CallObs::Unwound(p) => p.msg.contains("SIMRULE-UNWIND") || clock_fails,
+            _ => false,
+        };
+        if unwound_by_fault {
+            // the step unwound because of an injected fault: it is skipped on the
+            // replica; everything afterwards must still agree
+            rep.count(if clock_fails { "clock.source_failure" } else { "rule.unwind" });
+            rep.unjudged += 1;
+            return;
+        }
+        let rid = self.ids[self.oneshot_rr % self.ids.len()];
+        self.oneshot_rr += 1;
+        let w = self.reps.get_mut(&rid).unwrap();
+        // the replica evaluates under a frozen clock at the same instant (a Fail script
+        // that did not fire behaves as frozen)
+        let (o2, _) = w.execute(lang, full, &ClockScript::Frozen { t });
+        rep.judged += 1;
+        if *o != o2 {
+            rep.violate("O-projection", format!("{}oneshot-differs:{}", tag, diff_kind(o, &o2)), ei, format!("one-shot text {:?} (lang {}) gave {} on the long-lived calculator{} but {} on replica {} with a different evaluation history", full, lang, o.short(), describe(tag), o2.short(), rid));
+        }
+        if let Some(n) = o.lines().map(|x| x.len()) {
+            let want = text.expected_slots(rendered);
+            if n != want { rep.violate("O-slots", format!("{}oneshot-slot-count", tag), ei, format!("text {:?} has {} lines but {} result slots", full, want, n)); }
+        }
+        // isolation: no probe bound in any session may be visible to a one-shot evaluation
+        check_probes(rep, ei, text, o, &BTreeMap::new(), &self.bound, "one-shot");
+    }
+
+    #[allow(clippy::too_many_arguments)]
+    fn judge_session(&mut self, rep: &mut RunReport, ei: usize, actor: u8, text: &TextSpec, rendered: &[String], full: &str, o: &CallObs, t: i128, tag: &str) {
+        rep.mix_obs(&o.short());
+        let want = text.expected_slots(rendered);
+        let w = self.reps.get_mut(&actor).unwrap();
+        w.allow_unwind = true;
+        let o2 = w.session_text_linewise(actor, full, &ClockScript::Frozen { t });
+        rep.judged += 1;
+        if *o != o2 {
+            rep.violate("O-projection", format!("{}session-differs:{}", tag, diff_kind(o, &o2)), ei, format!("session text {:?} gave {} on the long-lived calculator/session{} but {} on the client's replica fed line by line", full, o.short(), describe(tag), o2.short()));
+        }
+        match o {
+            CallObs::Returned { status, lines } => {
+                if !*status || lines.len() != want {
+                    rep.violate("O-slots", format!("{}session-slot-count", tag), ei, format!("new text {:?} has {} lines but status={} with {} result slots", full, want, status, lines.len()));
+                }
+            }
+            CallObs::Unwound(_) => {}
+        }
+        // persistence and isolation of probes
+        let mine = self.bound.get(&actor).cloned().unwrap_or_default();
+        let newly = check_probes(rep, ei, text, o, &mine, &self.bound, "session");
+        if let Some(m) = self.bound.get_mut(&actor) { m.extend(newly); }
+    }
+}
+
+fn describe(tag: &str) -> &'static str {
+    match tag {
+        "nested-" => " (while other clients' steps ran inside its callback invocations)",
+        "inner-" => " (evaluated inside a callback invocation of another evaluation in progress)",
+        _ => "",
     }
 }
 
